@@ -134,6 +134,16 @@ func parse(s string) *node {
 				p := stack[len(stack)-1]
 				p.children = append(p.children, &node{kind: nText, text: string(t)})
 			}
+		case xml.Comment:
+			if len(stack) > 0 {
+				p := stack[len(stack)-1]
+				p.children = append(p.children, &node{kind: nComment, text: string(t)})
+			}
+		case xml.ProcInst:
+			if len(stack) > 0 {
+				p := stack[len(stack)-1]
+				p.children = append(p.children, &node{kind: nPI, text: t.Target + " " + string(t.Inst)})
+			}
 		}
 	}
 	return root
